@@ -121,6 +121,13 @@ class Run:
         self.results = self.interp.run(fn, args=args, subst=subst, path=path)
         self.norm = Norm(param_widths(world, fn))
         self.norm.input_widths.update(self.interp.in_widths)
+        for t_, w_ in list(self.interp.term_widths.items()):
+            try:
+                nt = self.norm.n(t_)
+            except Exception:
+                continue
+            if isinstance(nt, tuple) and self.norm.width(nt) is None:
+                self.norm.value_widths[nt] = w_
 
     @property
     def ok_paths(self):
@@ -189,8 +196,10 @@ def compose_token(world, backend, purpose):
     seal = Run(world, f, subst=sub, resolver=res)
     out["seal"] = seal
     oks = seal.ok_paths
-    if len(oks) != 1 or seal.other_paths:
-        out["problems"].append(f"seal: expected exactly one success path, got {len(oks)} (+{len(seal.other_paths)} non-returning)")
+    # panicking (diverging) paths are C04's subject, as in compose_paserk; loops / unsupported constructs are not tolerated
+    bad_other = [r for r in seal.other_paths if r.kind not in ("diverge",)]
+    if len(oks) != 1 or bad_other:
+        out["problems"].append(f"seal: expected exactly one success path, got {len(oks)} (+{len(bad_other)} non-returning: {[(r.kind, r.exit_site) for r in bad_other][:3]})")
         if not oks:
             return out
     r = oks[0]
@@ -289,6 +298,7 @@ def compose_paserk(world, backend, op, unseal_key_arg=None):
         args.append(unseal_key_arg if (unseal_key_arg is not None and i == 2) else ("ptr", ("P", i, nm)))
     undo = Run(world, g, args=args, subst=sub, resolver=res, path=Path())
     undo.norm.input_widths.update(wrap.norm.input_widths)
+    undo.norm.value_widths.update(wrap.norm.value_widths)
     out["undo"] = undo
     uoks = undo.ok_paths
     if len(uoks) != 1:
